@@ -8,6 +8,7 @@ import Rox.Lemmas.RoundTrip3
 import Rox.Lemmas.RoundTrip6
 import Rox.Lemmas.RoundTrip7
 import Rox.Lemmas.AttrEntity
+import Rox.Lemmas.AttrEntityMany
 import Rox.Props.C03
 
 namespace Rox.Props.C07
@@ -95,6 +96,29 @@ theorem entity_reference_in_attribute_value (T : Tables) (txt : Bytes) (c c' : C
     out = .owned (Rox.Spec.attrLit p ++ Rox.Spec.attrLit e.value.bytes ++ Rox.Spec.attrLit q) ∧
       c'.ld = ⟨0, 0⟩ :=
   Rox.Lemmas.normalizeAttribute_entity T txt c c' value out p q name e hd hval hp hq hv hcr hfind h
+
+/-- **In attribute values, any number of references** (entity depth 0; every context): an attribute
+value written as literal parts and references in any number and order,
+
+    p0 &n1; p1 &n2; p2 … &nk; pk        (k ≥ 0; the same entity may occur several times)
+
+where every `pi` and every referenced entity's replacement text is literal (free of `&` and `<`),
+normalises — whenever `normalize_attribute` succeeds — to exactly the normalisation of `p0`, of the
+replacement text of `n1`, of `p1`, … written one after the other: what the value would be with every
+replacement text standing in place of its reference (`Rox.Lemmas.expected`). The loop detector is
+back at rest afterwards. `Rox.Lemmas.RefsOk` says that at the offset of each `&` the reference
+lexer reads the name `ni` (the hypothesis `hcr` of `entity_reference_in_attribute_value`, once per
+reference); `Rox.Lemmas.SegsOk` that each `ni` is declared and its value and `pi` are literal. For
+`k = 0` the value is stored borrowed, so the statement is about the bytes of the result.
+`Rox.Lemmas.ManyExample` instantiates all hypotheses on `a&e;b&f;&e;c` with the tables of the build. -/
+theorem entity_references_in_attribute_value (T : Tables) (txt : Bytes) (c c' : Ctx) (value : Span)
+    (out : Str) (p0 : Bytes) (segs : List Rox.Lemmas.Seg) (hd : c.ld.depth = 0)
+    (hval : value.bytes = Rox.Lemmas.valueOf p0 segs)
+    (hp : Rox.Lemmas.litOk p0) (hsegs : Rox.Lemmas.SegsOk c.entities segs)
+    (hcr : Rox.Lemmas.RefsOk T txt (value.off + p0.length) segs)
+    (h : normalizeAttribute T txt c value = .ok (c', out)) :
+    out.bytes = Rox.Lemmas.expected p0 segs ∧ c'.ld = (if segs = [] then c.ld else ⟨0, 0⟩) :=
+  Rox.Lemmas.normalizeAttribute_entities_bytes T txt c c' value out p0 segs hd hval hp hsegs hcr h
 
 /-- **A reference inside a run of character data: the replacement text merges with its neighbours**
 (every abstract document `<n as> pre (t1 v t2) post </n>` of the class `Spec.Canon.ok`, any shape;
